@@ -78,6 +78,10 @@ CHECKS = {
    text="Exhaustive product of connection lifetimes (protocol, INIT, 0..3 wills, close cause, close instant relative to the queued request's timeout, reconnect before/after the late reply) on a full node with an observer connection; wills exactly once in order and not before the close, holds stay, queued request ends, nothing misrouted, node drains to zero.",
    note="Trusted: instrumenter+runtime+vnet; default schedule in handlers; three close instants.",
    technique="bounded exhaustive enumeration of fault/lifetime sequences on the implementation under the deterministic runtime"),
+ "C19": dict(level="exploration", design="4/C19",
+   text="Deviation-bounded exhaustive schedule exploration of 2-3 goroutines using the real Go client (instrumented copy) over the in-memory network against a full node, for Lock, RLock, Semaphore(n), MaxConcurrentFlow(n), RWLock, PriorityLock and Event; oracle on definitely-held intervals.",
+   note="Trusted: instrumenter+runtime+vnet; coarse scheduling (handlers atomic between network operations); n in {1,2}, <=3 goroutines.",
+   technique="stateless model checking: deviation-bounded schedule DFS of client goroutines against the implementation"),
 }
 NA_DEFAULT = "check not built yet in this round (planned: see DESIGN.md section 4)"
 
